@@ -20,7 +20,7 @@ Reset(r) == /\ input' = r.input /\ pos' = 0 /\ rbuf' = <<>> /\ eof' = FALSE /\ r
 \* predicate mode: only what was observed is installed; polls after the end of the run are not judged
 Free(r) == IF done THEN UNCHANGED vars
            ELSE /\ out' = (IF r.res.k = "pending" THEN out ELSE Append(out, r.res))
-                /\ done' = (r.res.k \in {"none", "ioerr"})
+                /\ done' = (r.res.k = "none")
                 /\ pos' = r.pos /\ eof' = IoHas(r.io, "eof") /\ errUsed' = (errUsed \/ IoHas(r.io, "err"))
                 /\ lastPend' = (r.res.k = "pending")
                 /\ act' = [op |-> "poll", io |-> r.io, res |-> r.res]
